@@ -206,7 +206,7 @@ OnNext(h, o, hd, x) ==
     [] op = "take_while" -> IF ApplyP(t.f, t.a, x) THEN SinkNext(h, c, x) ELSE SinkComplete(h, c, hd.s)
     [] op = "skip_while" ->
          IF st.flag THEN SinkNext(h, c, x)
-         ELSE IF ApplyP(t.f, t.a, x) THEN [SinkNext(h, c, x) EXCEPT !.ctl[c].flag = TRUE] ELSE h
+         ELSE IF ~ApplyP(t.f, t.a, x) THEN [SinkNext(h, c, x) EXCEPT !.ctl[c].flag = TRUE] ELSE h
     [] op = "take_last" -> [Touch(h, Lk("acc", c), "W") EXCEPT !.ctl[c].buf = PushCap(st.buf, x, t.a)]
     [] op = "skip_last" ->
          LET b == Append(st.buf, x)
@@ -239,15 +239,14 @@ OnNext(h, o, hd, x) ==
          \* the counter's write lock is held across everything below
          LET h0 == Acquire(h, Lk("wn", c), "W")
              j == h0.ctl[c].win
-             h1 == IF h0.stuck # "" THEN h0
-                   ELSE IF h0.ctl[c].n = 0
-                   THEN [SubjNext(SinkNext(h0, c, ObsBase + j), j, x) EXCEPT !.ctl[c].n = 1]
-                   ELSE LET h2 == [SubjNext(h0, j, x) EXCEPT !.ctl[c].n = h0.ctl[c].n + 1]
-                        IN IF h2.stuck = "" /\ h2.ctl[c].n = t.a
-                           THEN LET h3 == SubjComplete(h2, j)
-                                    p == NewSubject(h3, "plain", 0)
-                                IN IF h3.stuck # "" THEN h3 ELSE [p[1] EXCEPT !.ctl[c].win = p[2], !.ctl[c].n = 0]
-                           ELSE h2
+             \* hand out the window with its first item; then the item; then close the window if it is full
+             ha == IF h0.stuck # "" THEN h0 ELSE IF h0.ctl[c].n = 0 THEN SinkNext(h0, c, ObsBase + j) ELSE h0
+             h2 == IF ha.stuck # "" THEN ha ELSE [SubjNext(ha, j, x) EXCEPT !.ctl[c].n = ha.ctl[c].n + 1]
+             h1 == IF h2.stuck = "" /\ h2.ctl[c].n = t.a
+                   THEN LET h3 == SubjComplete(h2, j)
+                            p == NewSubject(h3, "plain", 0)
+                        IN IF h3.stuck # "" THEN h3 ELSE [p[1] EXCEPT !.ctl[c].win = p[2], !.ctl[c].n = 0]
+                   ELSE h2
          IN Release(h1)
     [] op = "group_by" ->
          LET key == x % 2
@@ -429,7 +428,7 @@ Subscribe0(h, t, o) ==
          LET h1 == Subscribe(h, t.in[1], o) IN IF h1.stuck # "" THEN h1 ELSE SubjNext(h1, t.b, t.a)
     [] t.op = "first" -> Subscribe(h, U("identity", 0, "", U("take", 1, "", t.in[1])), o)
     [] t.op = "last" -> Subscribe(h, U("identity", 0, "", U("take_last", 1, "", t.in[1])), o)
-    [] t.op = "element_at" -> Subscribe(h, U("identity", 0, "", U("last", 0, "", U("take", t.a, "", t.in[1]))), o)
+    [] t.op = "element_at" -> Subscribe(h, U("identity", 0, "", U("skip", IF t.a = 0 THEN 0 ELSE t.a - 1, "", U("take", t.a, "", t.in[1]))), o)
     [] t.op = "all" -> Subscribe(h, U("all_tail", 0, "", U("take", 1, "", U("filter", t.a, "n" \o t.f, t.in[1]))), o)
     [] t.op = "combine_latest" -> Subscribe(h, U("identity", 0, "", T("zip", 0, 0, "", 0, t.in, <<>>, <<>>)), o)
     [] t.op = "sequence_equal" -> Subscribe(h, U("seq_eq_tail", 0, "", T("zip", 0, 0, "", 0, t.in, <<>>, <<>>)), o)
